@@ -129,5 +129,95 @@ theorem gmdSigmaBar_spec {p : Nat} (S : Fin p → ℝ) (hp : 0 < p) (hS : ∀ i,
     0 < gmdSigmaBar S ∧ gmdSigmaBar S ^ p = ∏ i, S i :=
   ⟨Real.exp_pos _, LinAlg.GmdInv.exp_mean_log_pow p S hp hS⟩
 
+
+/-- `Σᴴ Σ = diag(S²)` for a tall (`Nt ≤ Nr`) `Σ` -/
+theorem sigma_gram (S : Fin (min Nr Nt) → ℝ) (h : Nt ≤ Nr) :
+    (toM (svdSigma S))ᴴ * toM (svdSigma S)
+      = diagonal (fun b : Fin Nt => (((S ⟨b.val, Nat.lt_min.mpr ⟨lt_of_lt_of_le b.isLt h, b.isLt⟩⟩ : ℝ) : ℂ)) ^ 2) := by
+  ext a b
+  rw [Matrix.mul_apply, Finset.sum_eq_single (⟨b.val, lt_of_lt_of_le b.isLt h⟩ : Fin Nr)]
+  · by_cases hab : a = b
+    · subst hab
+      simp [svdSigma, LinAlg.sigmaMat, conjTranspose_apply, sq]
+    · have : ¬ b.val = a.val := fun e => hab (Fin.ext e.symm)
+      simp [svdSigma, LinAlg.sigmaMat, conjTranspose_apply, hab, this]
+  · intro r _ hr
+    have : ¬ r.val = b.val := fun e => hr (Fin.ext e)
+    simp [svdSigma, LinAlg.sigmaMat, this]
+  · intro hh; exact absurd (Finset.mem_univ _) hh
+
+/-- positive singular values and `Nt ≤ Nr`: the channel has full column rank -/
+theorem fullColRank_of_svd (H : Mat ℂ Nr Nt) (U : Mat ℂ Nr Nr) (S : Fin (min Nr Nt) → ℝ)
+    (VH : Mat ℂ Nt Nt) (hsvd : IsFullSvd H U S VH) (h : Nt ≤ Nr) : FullColRank H := by
+  have hf := hsvd.factor
+  have hU := hsvd.u_unitary
+  have hV := hsvd.v_unitary
+  c04_matrix at hf
+  c04_matrix at hU
+  c04_matrix at hV
+  unfold FullColRank
+  have e : (toM H)ᴴ * toM H = (toM VH)ᴴ * ((toM (svdSigma S))ᴴ * toM (svdSigma S)) * toM VH := by
+    rw [← hf]
+    simp only [conjTranspose_mul, Matrix.mul_assoc]
+    rw [← Matrix.mul_assoc (toM U)ᴴ, hU, Matrix.one_mul]
+  rw [e, sigma_gram S h]
+  have hVu : IsUnit (toM VH) := ⟨⟨toM VH, (toM VH)ᴴ, hV, mul_eq_one_comm.mp hV⟩, rfl⟩
+  have hVHu : IsUnit (toM VH)ᴴ := ⟨⟨(toM VH)ᴴ, toM VH, mul_eq_one_comm.mp hV, hV⟩, rfl⟩
+  refine (hVHu.mul ?_).mul hVu
+  rw [Matrix.isUnit_iff_isUnit_det, det_diagonal, isUnit_iff_ne_zero]
+  refine Finset.prod_ne_zero_iff.mpr (fun b _ => pow_ne_zero 2 ?_)
+  exact_mod_cast (hsvd.pos _).ne'
+
+/-- conversely, full column rank forces `Nt ≤ Nr` -/
+theorem le_of_fullColRank (H : Mat ℂ Nr Nt) (hr : FullColRank H) : Nt ≤ Nr := by
+  have := (isUnit_gram_iff_rank (toM H)).mp hr
+  have h2 := Matrix.rank_le_height (toM H)
+  omega
+
+/-- what makes GMD MIMO useful: seen through `Qᴴ` on the receive side and `P` on the transmit side
+    the channel is the triangular `R` -/
+theorem gmd_triangular (H : Mat ℂ Nr Nt) (sb : ℝ) (Q : Mat ℂ Nr Nr) (R : Mat ℂ Nr Nt) (P : Mat ℂ Nt Nt)
+    (hg : IsGmd H sb Q R P) : matMul (cT Q) (matMul H P) = R := by
+  have hf := hg.factor
+  have hP := hg.p_unitary
+  have hQ := hg.q_unitary
+  c04_matrix at hf
+  c04_matrix at hP
+  c04_matrix at hQ
+  c04_matrix
+  rw [← hf]
+  simp only [Matrix.mul_assoc]
+  rw [hP, Matrix.mul_one, ← Matrix.mul_assoc, hQ, Matrix.one_mul]
+
+/-- the equivalent channel `Q.dot(R)` the code hands to `pinv` / `solve` is `H P` -/
+theorem gmd_channelEq_eq (H : Mat ℂ Nr Nt) (sb : ℝ) (Q : Mat ℂ Nr Nr) (R : Mat ℂ Nr Nt) (P : Mat ℂ Nt Nt)
+    (hg : IsGmd H sb Q R P) : gmdChannelEq Q R = matMul H P := by
+  have hf := hg.factor
+  have hP := hg.p_unitary
+  c04_matrix at hf
+  c04_matrix at hP
+  c04_matrix
+  exact gmd_channel_eq _ _ _ _ hf hP
+
 end Pf
+
+namespace Ex
+
+/-- the channel `diag(4, 1)` … -/
+noncomputable def H3 : Mat ℂ 2 2 := svdSigma LinAlg.GmdInv.exS
+
+/-- … with its full SVD `1 · diag(4, 1) · 1`: singular values `(4, 1)`, geometric mean `2`
+    (the sweep performs one genuine Givens rotation on it) -/
+theorem fullSvd_contract : IsFullSvd H3 eye LinAlg.GmdInv.exS eye ∧ 0 < min 2 2 ∧ 2 ≤ 2 := by
+  have he : matMul (cT (eye : Mat ℂ 2 2)) eye = eye := by
+    c04_matrix
+    simp
+  have he' : matMul (eye : Mat ℂ 2 2) (cT eye) = eye := by
+    c04_matrix
+    simp
+  refine ⟨⟨?_, he, he', LinAlg.GmdInv.ex_hyps.2.2.2.1, LinAlg.GmdInv.ex_hyps.2.2.2.2.1⟩, by decide, le_refl _⟩
+  c04_matrix
+  simp [H3]
+
+end Ex
 end PyPhysim.C04
